@@ -317,10 +317,15 @@ func (r *rewriter) rewriteForRange(pkg loader.Pkg, fr *ast.RangeStmt) *ast.ForSt
 
 	init := X.Define(iter, fr.X)
 	cond := X.Call(next)
-	body := X.Block1(
-		X.Assign(fr.Tok, fr.Key, X.Call(current)),
-		fr.Body.List...,
-	)
+	assign := X.Assign(fr.Tok, fr.Key, X.Call(current))
+	var body *ast.BlockStmt
+	if fr.Tok == token.DEFINE && redeclares(fr.Body.List, fr.Key) {
+		// for v := range it { v := ... }
+		// keep the body in its own scope, prevent from name conflicting
+		body = X.Block(assign, fr.Body)
+	} else {
+		body = X.Block1(assign, fr.Body.List...)
+	}
 	return X.ForStmt(init, cond, nil, body)
 }
 
